@@ -104,6 +104,7 @@ func properties() []Property {
 		{ID: "C16", Assumptions: []string{aSummaries, aModels, "denominations are built from 1..segments '/'-free segments (the identifiers transfer / channel-7 / channel-8 / uusdc or arbitrary bytes of length 0..seglen), empty segments allowed; a denomination with more separators than that is outside the claim", "source port/channel: transfer/channel-7 or transfer/channel-8", "reference = the ICS-20 application's own derivation written with the same ibc-go helpers (ReceiverChainIsSource, GetDenomPrefix, ParseDenomTrace); channel identifier syntax is ibc-go's (summarised as a byte predicate)"},
 			Harnesses: []HarnessSpec{
 				{Name: "H_C16_denom", Profile: "bit", Quick: b("segments", 5, "seglen", 1), Thorough: b("segments", 6, "seglen", 4), Covers: []string{"accepted", "refused", "refused-not-returning"}},
+				{Name: "H_C16_ports", Profile: "bit", Covers: []string{"accepted", "refused"}},
 				{Name: "H_C16_credit", Profile: "bit", Quick: b("rcvKinds", 2, "denomKinds", 4, "memoKinds", 1, "amountKinds", 1, "intKinds", 1, "fees", 1, "priors", 0, "pauses", 0, "ptMax", 0, "feeRcpKinds", 1, "faults", 0), Covers: []string{"accepted", "not-accepted"}},
 			}},
 		{ID: "C17", Assumptions: []string{aSummaries, aModels, aE3, "the collections summary includes the key codec's refusal of 0x00 in non-terminal string key components", "genesis lists of at most list / entries elements, counterparty strings of at most strlen bytes, protocol / action ids any int32; JSON (un)marshalling of the genesis document and module.go glue are outside the claim"},
